@@ -1,6 +1,7 @@
 CONSTANTS
   V = {}
   MaxN = 2
+  Vary = FALSE
 SPECIFICATION Spec
 INVARIANTS NeverDestroyed
 CHECK_DEADLOCK FALSE
